@@ -1140,3 +1140,47 @@ def _box_into_vec(ex, p, m, a, func, fr):
     if isinstance(v, Arr) and v.elemty == 'u8':
         return one(Buf('vec', v.arr, bv64(0), v.nterm()))
     return one(v)
+
+
+# --------------------------------------------------------------------------- std::net value types
+# SocketAddrV4 = Agg('struct', (ip: Arr[u8;4], port), 'SocketAddrV4'); SocketAddrV6 = Agg((ip: Arr[u8;16], port, flowinfo, scope), 'SocketAddrV6')
+@model(r'^(?:std::net::)?SocketAddrV4::new$')
+def _sa4_new(ex, p, m, a, func, fr):
+    return one(Agg('struct', (a[0], a[1]), 'SocketAddrV4'))
+
+
+@model(r'^(?:std::net::)?SocketAddrV6::new$')
+def _sa6_new(ex, p, m, a, func, fr):
+    return one(Agg('struct', (a[0], a[1], a[2], a[3]), 'SocketAddrV6'))
+
+
+@model(r'^(?:std::net::)?SocketAddrV[46]::(ip|port)$')
+def _sa_get(ex, p, m, a, func, fr):
+    tr = target_ref(ex, p, a[0])
+    v = ex.load(p.st, tr.base, tr.proj)
+    if isinstance(v, Opaque):
+        return one(Opaque('socket addr part'))
+    if m.group(1) == 'ip':
+        return one(Ref(tr.base, tr.proj + (('field', 0),)))
+    return one(v.fields[1])
+
+
+@model(r'^(?:std::net::)?Ipv[46]Addr::octets$')
+def _ip_octets(ex, p, m, a, func, fr):
+    v = B(ex, p, a[0])
+    return one(v)
+
+
+@model(r'^<(?:std::net::)?Ipv4Addr as (?:std::convert::)?From<u32>>::from$|^<(?:std::net::)?Ipv6Addr as (?:std::convert::)?From<u128>>::from$')
+def _ip_from_int(ex, p, m, a, func, fr):
+    x = a[0][0]
+    k = x.size() // 8
+    arr = z3.K(BV64, bvv(0, 8))
+    for i in range(k):
+        arr = z3.Store(arr, bv64(i), z3.Extract(8 * (k - i) - 1, 8 * (k - i - 1), x))
+    return one(Arr(arr, 'u8', k))
+
+
+@model(r'^<(?:\w+::)*Address as (?:std::convert::)?From<(?:std::net::)?SocketAddr>>::from$')
+def _addr_from_sa(ex, p, m, a, func, fr):
+    return one(Enum(bv64(1), {'Socket': (a[0],)}, 'Address'))
